@@ -56,11 +56,18 @@ def h_find_if(em, name, r, args, n, rvalue):
     if cont is None or ct is None: raise Unsupported('%s over unknown container at %s' % (name, em.where(n)))
     em.require_full_range(first, last, n)
     res = em.tmp('found'); j = em.tmp('j')
+    saved = em.pre; em.pre = []
     cond = inline_lambda(em, lam, ['%s.data[%s]' % (cont, j)])
+    inner = em.pre; em.pre = saved          # temporaries / obligations of the predicate belong INSIDE the loop (they mention the loop index)
     em.pre.append('size_t %s = %s.size;' % (res, cont))
     em.pre.append('{ size_t %s; for (%s = 0; %s < %s.size; ++%s)' % (j, j, j, cont, j))
     em.pre.append(em.loop_marker())
-    em.pre.append('  { if (%s == %s.size && (%s)) %s = %s; } }' % (res, cont, cond if name != 'all_of' else '!(%s)' % cond, res, j))
+    c_ = cond if name != 'all_of' else '!(%s)' % cond
+    if inner:
+        # the predicate is evaluated only until the search is decided (as the algorithm does): side effects included
+        em.pre.append('  { if (%s == %s.size) { %s if (%s) %s = %s; } } }' % (res, cont, ' '.join(inner), c_, res, j))
+    else:
+        em.pre.append('  { if (%s == %s.size && (%s)) %s = %s; } }' % (res, cont, c_, res, j))
     em.rules['std::%s-as-loop' % name] += 1
     if name == 'find_if': return res
     if name == 'any_of': return '(%s != %s.size)' % (res, cont)
